@@ -496,6 +496,7 @@ CHECKS = {
         parts=[
             dict(name="random", run="TestC17Random", checks=dict(quick=20000, thorough=100000), shards=dict(quick=1, thorough=16)),
             dict(name="reload", run="TestC17Reload", checks=dict(quick=150, thorough=1500), shards=dict(quick=4, thorough=16)),
+            dict(name="degenerate", run="TestC17Degenerate", checks=dict(quick=12000, thorough=60000), shards=dict(quick=1, thorough=8)),
         ],
     ),
     "C02": dict(
